@@ -162,6 +162,7 @@ var properties = map[string]*propSpec{
 		Title: "Filter logic is Boolean algebra over members; comparisons obey their dualities",
 		Checks: []checkSpec{
 			{Test: "TestC09_Algebra", Quick: 15000, Thorough: 250000, Rapid: true},
+			{Test: "TestC09_SharedFilter", Quick: 150, Thorough: 3000, Rapid: true, Race: true, Flaky: true, Shards: 6},
 		},
 		Assumptions: assume("relational oracle over the library's own atoms (what an atom selects is C10/C01's business); member identity is recovered from pairwise-distinct member values"),
 		Floors: []floor{
